@@ -105,6 +105,8 @@ struct Shapes
 	std::tuple<int32_t, std::string, bool, int64_t> tup{};
 	std::array<int32_t, 4> arr{};
 	std::vector<std::tuple<int32_t, std::string>> vt;
+	std::bitset<6> bits;
+	std::vector<bool> vb;
 	int32_t tail = 0;
 	bool tailLoaded = false;
 	template <class A>
@@ -114,6 +116,8 @@ struct Shapes
 		ar << KeyValue("tup", tup);
 		ar << KeyValue("arr", arr);
 		ar << KeyValue("vt", vt);
+		ar << KeyValue("bits", bits);
+		ar << KeyValue("vb", vb);
 		ar << KeyValue("tail", tail, Spy{ &tailLoaded });
 	}
 };
